@@ -365,6 +365,109 @@ fn run_protein(case: u64, rng: &mut Rng, rep: &mut Report) {
     }
 }
 
+// --- a user-defined alphabet with 12 symbols (11 letters + wildcard), through the public traits:
+// the 8-bit shuffle kernel of the AVX2 platform accepts any alphabet with K <= 16 ----------------
+
+#[derive(Clone, Copy, Debug, Default, PartialEq, Eq)]
+#[repr(u8)]
+pub enum L12 {
+    A = 0,
+    B = 1,
+    C = 2,
+    D = 3,
+    E = 4,
+    F = 5,
+    G = 6,
+    H = 7,
+    I = 8,
+    J = 9,
+    K = 10,
+    #[default]
+    X = 11,
+}
+
+const L12_ALL: [L12; 12] = [L12::A, L12::B, L12::C, L12::D, L12::E, L12::F, L12::G, L12::H, L12::I, L12::J, L12::K, L12::X];
+
+impl lightmotif::abc::Symbol for L12 {
+    fn as_index(&self) -> usize {
+        *self as usize
+    }
+    fn as_ascii(&self) -> u8 {
+        b"ABCDEFGHIJKX"[*self as usize]
+    }
+    fn from_ascii(c: u8) -> Result<Self, lightmotif::err::InvalidSymbol> {
+        match b"ABCDEFGHIJKX".iter().position(|&x| x == c) {
+            Some(i) => Ok(L12_ALL[i]),
+            None => Err(lightmotif::err::InvalidSymbol(c as char)),
+        }
+    }
+}
+
+#[derive(Clone, Copy, Debug, Default, PartialEq, Eq)]
+pub struct Abc12;
+
+impl Alphabet for Abc12 {
+    type Symbol = L12;
+    type K = lightmotif::num::U12;
+    fn symbols() -> &'static [L12] {
+        &L12_ALL
+    }
+    fn as_str() -> &'static str {
+        "ABCDEFGHIJKX"
+    }
+}
+
+fn run_custom12(case: u64, rng: &mut Rng, rep: &mut Report) {
+    let k = 12;
+    let m = rng.range(2, 24);
+    let fam = *rng.pick(&[0usize, 1, 2, 3, 6]);
+    let (rows, fam_name) = gen_c08_matrix(rng, k, m, fam);
+    let l = rng.range(m, 400);
+    let seq = gen_c08_seq(rng, rep, &rows, k, l);
+    rep.eval();
+    rep.cover("alphabet.user_defined_12_symbols");
+    let pssm: ScoringMatrix<Abc12> = scoring::<Abc12>(&rows);
+    let enc = encoded::<Abc12>(&seq);
+    let mut striped: StripedSequence<Abc12, U32> = stripe_generic(&enc);
+    striped.configure(&pssm);
+    let r_rows = striped.matrix().rows() - striped.wrap();
+    let nvalid = l - m + 1;
+    let wit = || {
+        J::obj()
+            .set("alphabet", J::s("user-defined, 12 symbols ABCDEFGHIJK + wildcard X"))
+            .set("family", J::s(fam_name))
+            .set("L", J::u(l))
+            .set("M", J::u(m))
+            .set("sequence", J::s(fmt_seq_short::<Abc12>(&seq)))
+    };
+    let dm: DiscreteMatrix<Abc12> = match guard(|| pssm.to_discrete()) {
+        Ok(d) => d,
+        Err(p) => {
+            rep.violate(&format!("c08.panic:{}", panic_site(&p)), case, format!("panic in to_discrete: {}", p), wit());
+            return;
+        }
+    };
+    let dm_rows: Vec<Vec<u8>> = (0..m).map(|i| dm.matrix()[i].to_vec()).collect();
+    let need: Vec<u8> = (0..nvalid).map(|i| dm.scale(pssm.score_position(&striped, i))).collect();
+    for arm in ["generic", "avx2_shuffle"] {
+        let mut out = StripedScores::<u8, U32>::empty();
+        rep.cover(&format!("arm.{}.user_defined_12", arm));
+        let res = guard(|| match arm {
+            "generic" => Pipeline::<Abc12, _>::generic().score_into(&dm, &striped, &mut out),
+            _ => lightmotif::pli::platform::Avx2::score_u8_rows_into_shuffle::<Abc12, _, _>(&dm, &striped, 0..r_rows, &mut out),
+        });
+        if let Err(p) = res {
+            let kind = if arm == "generic" && p.contains("attempt to add with overflow") && panic_site(&p).ends_with("src/pli/mod.rs") { "c08.generic_u8_wraps".to_string() } else { format!("c08.panic:{}", panic_site(&p)) };
+            rep.violate(&kind, case, format!("{} (user-defined alphabet): panic while scoring in 8 bits: {}", arm, p), wit());
+            return;
+        }
+        for i in 0..nvalid {
+            let got = out.matrix()[i % r_rows][i / r_rows];
+            verdict(case, rep, arm, arm == "generic", &dm_rows, &seq, i, got, need[i], "scale(real score)", &wit);
+        }
+    }
+}
+
 /// consequence clause under reconfiguration: the byte threshold must always be the image of the
 /// threshold in effect - a scanner whose threshold is changed between next() calls still yields
 /// every position found by the blocks scored afterwards (saturating arms only)
@@ -378,7 +481,8 @@ fn run_history(case: u64, rng: &mut Rng, rep: &mut Report) {
             break inp;
         }
     };
-    for &arm in [Arm::DispAvx2, Arm::DispAuto].iter() {
+    // (the SSE2 arm of the dispatcher saturates as well; only the generic arm wraps)
+    for &arm in [Arm::DispAvx2, Arm::DispAuto, Arm::DispSse2].iter() {
         crate::scanhist::history_case(case, rng, rep, &inp, arm, crate::scanhist::Finish::Exhaust, "c08", Some("c08.prefilter_lost_hit"));
     }
     // the best hit must survive the pre-filter of max() as well: near-tie inputs (wide matrices with
@@ -391,7 +495,7 @@ fn run_history(case: u64, rng: &mut Rng, rep: &mut Report) {
             break inp;
         }
     };
-    for &arm in [Arm::DispAvx2, Arm::DispAuto].iter() {
+    for &arm in [Arm::DispAvx2, Arm::DispAuto, Arm::DispSse2].iter() {
         crate::scanhist::history_case(case, rng, rep, &near, arm, crate::scanhist::Finish::Max, "c08", None);
         rep.cover("class.history.max_on_near_ties");
     }
@@ -400,7 +504,9 @@ fn run_history(case: u64, rng: &mut Rng, rep: &mut Report) {
 pub fn run(cfg: &Config) -> Report {
     let n = cfg.n(3000, 120_000) as u64;
     run_cases(cfg, n, |case, rng, rep| {
-        if case % 8 == 7 {
+        if case % 16 == 5 {
+            run_custom12(case, rng, rep)
+        } else if case % 8 == 7 {
             run_protein(case, rng, rep)
         } else if case % 8 == 3 {
             run_history(case, rng, rep)
